@@ -4,8 +4,12 @@ import (
 	"bytes"
 	"fmt"
 	"go/ast"
+	"go/parser"
 	"go/printer"
+	"go/token"
 	"go/types"
+	"os"
+	"path/filepath"
 	"sort"
 	"strings"
 
@@ -24,6 +28,13 @@ var orderDirs = []string{
 	"internal/j5s/protoprint",
 	"internal/j5s/protoprint/optionreflect",
 	"internal/j5s/sourcewalk",
+	// the front end on the compile path
+	"internal/j5s/j5parse",
+	"internal/bcl",
+	"internal/bcl/internal/parser",
+	"internal/bcl/internal/walker",
+	"internal/bcl/internal/walker/schema",
+	"lib/j5reflect",
 }
 
 func exprString(tp *typedPkg, e ast.Expr) string {
@@ -45,6 +56,9 @@ func genMapRange(repo string) (string, error) {
 			return "", err
 		}
 		short := dir[strings.LastIndex(dir, "/")+1:]
+		if dir == "internal/bcl/internal/walker/schema" {
+			short = "walker/schema"
+		}
 		for fi, f := range tp.files {
 			for _, d := range f.Decls {
 				fd, ok := d.(*ast.FuncDecl)
@@ -113,8 +127,8 @@ func genMapRange(repo string) (string, error) {
 	var sb strings.Builder
 	sb.WriteString("From Coq Require Import String List.\nImport ListNotations.\nLocal Open Scope string_scope.\n")
 	sb.WriteString("(* Every iteration whose order the Go language / protobuf-go leaves unspecified, in the packages on the\n")
-	sb.WriteString("   compile and print path (j5convert, protobuild, protoprint, optionreflect, sourcewalk), by go/types:\n")
-	sb.WriteString("   `range` over a map, maps.Keys/Values, protoreflect Message.Range / Map.Range, proto.RangeExtensions.\n")
+	sb.WriteString("   compile and print path (j5convert, protobuild, protoprint, optionreflect, sourcewalk, j5parse, internal/bcl/**, lib/j5reflect), by go/types:\n")
+	sb.WriteString("   `range` over a map, maps.Keys/Values, protoreflect Message.Range / Map.Range, sync.Map.Range, reflect MapKeys/MapRange, proto.RangeExtensions.\n")
 	sb.WriteString("   (package, file, function, kind, ranged expression) *)\n")
 	sb.WriteString("Definition sites : list (string * string * string * string * string) := [\n")
 	var rows []string
@@ -134,6 +148,11 @@ var panicDirs = []string{
 	"internal/j5s/protoprint/optionreflect",
 	"internal/j5s/sourcewalk",
 	"internal/j5s/j5parse",
+}
+
+var panicSyntaxDirs = []string{
+	"internal/bcl", "internal/bcl/errpos", "internal/bcl/internal/parser", "internal/bcl/internal/walker",
+	"internal/bcl/internal/walker/schema", "internal/bcl/internal/linter", "lib/j5reflect",
 }
 
 func genPanic(repo string) (string, error) {
@@ -178,31 +197,54 @@ func genPanic(repo string) (string, error) {
 			}
 		}
 	}
-	// lib/j5reflect/value_ast.go is anchored too but belongs to a large package: syntax only
-	{
-		fset, f, err := gen.ParseFile(repo + "/lib/j5reflect/value_ast.go")
+	// the front end (internal/bcl/**: parse.go, parser, walker, walker/schema, errpos, linter) and
+	// lib/j5reflect (the walker writes through it; value_ast.go is an anchor) by syntax only
+	for _, dir := range panicSyntaxDirs {
+		ents, err := os.ReadDir(filepath.Join(repo, dir))
 		if err != nil {
 			return "", err
 		}
-		for _, d := range f.Decls {
-			fd, ok := d.(*ast.FuncDecl)
-			if !ok || fd.Body == nil {
+		short := dir[strings.LastIndex(dir, "/")+1:]
+		if dir == "internal/bcl" {
+			short = "bcl"
+		}
+		for _, e := range ents {
+			n := e.Name()
+			if e.IsDir() || !strings.HasSuffix(n, ".go") || strings.HasSuffix(n, "_test.go") {
 				continue
 			}
-			ast.Inspect(fd, func(n ast.Node) bool {
-				call, ok := n.(*ast.CallExpr)
-				if !ok {
-					return true
+			src, err := os.ReadFile(filepath.Join(repo, dir, n))
+			if err != nil {
+				return "", err
+			}
+			if strings.Contains(string(src), "//go:build verif") {
+				continue
+			}
+			fset := token.NewFileSet()
+			f, err := parser.ParseFile(fset, filepath.Join(repo, dir, n), src, 0)
+			if err != nil {
+				return "", err
+			}
+			for _, d := range f.Decls {
+				fd, ok := d.(*ast.FuncDecl)
+				if !ok || fd.Body == nil {
+					continue
 				}
-				if id, ok := call.Fun.(*ast.Ident); ok && id.Name == "panic" {
-					var b bytes.Buffer
-					if len(call.Args) == 1 {
-						printer.Fprint(&b, fset, call.Args[0])
+				ast.Inspect(fd, func(nd ast.Node) bool {
+					call, ok := nd.(*ast.CallExpr)
+					if !ok {
+						return true
 					}
-					sites = append(sites, ps{"j5reflect", "value_ast.go", funcName(fd), strings.Join(strings.Fields(b.String()), " "), fset.Position(call.Pos()).Line})
-				}
-				return true
-			})
+					if id, ok := call.Fun.(*ast.Ident); ok && id.Name == "panic" && id.Obj == nil {
+						var b bytes.Buffer
+						if len(call.Args) == 1 {
+							printer.Fprint(&b, fset, call.Args[0])
+						}
+						sites = append(sites, ps{short, n, funcName(fd), strings.Join(strings.Fields(b.String()), " "), fset.Position(call.Pos()).Line})
+					}
+					return true
+				})
+			}
 		}
 	}
 	sort.SliceStable(sites, func(i, j int) bool {
@@ -217,7 +259,7 @@ func genPanic(repo string) (string, error) {
 	})
 	var sb strings.Builder
 	sb.WriteString("From Coq Require Import String List.\nImport ListNotations.\nLocal Open Scope string_scope.\n")
-	sb.WriteString("(* Every explicit panic( call in the anchored compiler files (package, file, function, argument). *)\n")
+	sb.WriteString("(* Every explicit panic( call in the compile/print path: j5convert, protobuild, protoprint, optionreflect, sourcewalk, j5parse (typed) and the front end internal/bcl/** plus lib/j5reflect (syntactic): (package, file, function, argument). *)\n")
 	sb.WriteString("Definition sites : list (string * string * string * string) := [\n")
 	var rows []string
 	for _, s := range sites {
